@@ -284,6 +284,18 @@ pub fn catalogue() -> Vec<(String, &'static str)> {
     add("<r xmlns='u' xmlns='v'/>", "duplicate default namespace declaration");
     add("<r xmlns:p='u' xmlns:p='u'/>", "duplicate namespace declaration");
     add("<r><a x='1' y='2' z='3' x='4'/></r>", "duplicate attribute on child");
+    add("<e xmlns:p='u' p:x='1' x='2' p:x='3'/>", "duplicate prefixed attribute, same local name unprefixed in between");
+    add("<e xmlns:p='u' x='1' p:x='2' x='3'/>", "duplicate attribute, same local name prefixed in between");
+    add("<e xmlns:p='u' xmlns:q='u' p:x='1' q:x='2' p:x='3'/>", "duplicate prefixed attribute, other prefix in between");
+    add("<e xmlns:x='u' x='2' xmlns:x='v'/>", "duplicate namespace declaration, attribute named like the prefix in between");
+    add("<e xmlns:x='u' xmlns='a' x:xmlns='b' xmlns='c'/>", "duplicate default namespace declaration, x:xmlns in between");
+    add("<e a='1' b='2' a='3' b='4'/>", "two interleaved duplicates");
+    add("<?xml version='1.0' standalone='yes\"?><a/>", "standalone literal closed by the other quote");
+    add("<?xml version='1.0\" standalone='yes'?><a/>", "version literal closed by the other quote");
+    add("<?xml version='1.0' encoding=\"UTF-8'?><a/>", "encoding literal closed by the other quote");
+    add("<a x='1\"/>", "attribute value closed by the other quote");
+    add("<!DOCTYPE a SYSTEM 's\"><a/>", "system literal closed by the other quote");
+    add("<!DOCTYPE a [<!ENTITY e 'v\">]><a/>", "entity value closed by the other quote");
     // tags
     add("<r></s>", "mismatched end tag");
     add("<r><a></r></a>", "overlapping tags");
